@@ -12,6 +12,9 @@ TRUSTED = ["SimTcp stands in for TCP; the receiver object's slots only log"]
 NAMES = [b"echo", b"ech", b"echo2", b"", b"a/b", b"data", b"Echo", b"caf\xc3\xa9", b"echo/", b"e" * 300]
 
 
+CASE_TIMEOUT = 90      # the whole-body requests of several MiB over a real connection may take a while under load
+
+
 def cases(tier, seed, ctx=None):
     rng = Rng(seed)
     ver = ctx["probe"]("version", [[]])[0][0]
